@@ -14,4 +14,4 @@ for d in sorted(glob.glob(os.path.join(VERIF, "seeded", "*", ""))):
     needs = m.get("needs", "")
     if m.get("history"):
         needs += " -- " + m["history"]
-    print(f"| {m['name']} | {', '.join('`%s`' % f for f in files)} | {needs} | {', '.join(m['caught_by']) or '**NOT CAUGHT**'} |")
+    print(f"| {m['name']} | {', '.join('`%s`' % f for f in files)} | {needs} | {', '.join(m['caught_by']) or ('unreliably: ' + ', '.join(m['caught_unreliably_by']) if m.get('caught_unreliably_by') else '**NOT CAUGHT**')} |")
